@@ -1,2 +1,134 @@
-def add_step_obligations(ck, tu, X, want=()):
-    pass
+"""Shared proof units of the C write path (index function, per-file step, public write API).
+Each property check takes the obligations whose labels it owns (see OWNERS); the proof units are re-generated from
+the current sources on every run."""
+import os, re
+import z3
+from dvc.core import *
+from dvc import cfront, cext, harness
+from contracts import c_index, c_step, c_blocks
+
+# label prefix -> properties that claim it
+OWNERS = [
+    ("digital_rf_create_rf_data_index.reject", ("C05",)),
+    ("digital_rf_create_rf_data_index.accepts_wellformed", ("C05", "C01")),
+    ("digital_rf_create_rf_data_index.within_window", ("C04", "C06")),
+    ("digital_rf_create_rf_data_index.samples_to_write", ("C01", "C04", "C06", "C19")),
+    ("digital_rf_create_rf_data_index.row", ("C06", "C01", "C19")),
+    ("digital_rf_create_rf_data_index.null_only_if_no_rows", ("C06",)),
+    ("digital_rf_create_rf_data_index.frame_writer", ("C05", "C06")),
+    ("assert.digital_rf_create_rf_data_index", ("C06",)),
+    ("nowrap.digital_rf_create_rf_data_index", ("C06", "C01")),
+    ("bounds.digital_rf_create_rf_data_index", ("C06", "C01")),
+    ("digital_rf_get_global_sample", ("C01", "C06", "C19")),
+    ("nowrap.digital_rf_get_global_sample", ("C01",)),
+    ("bounds.digital_rf_get_global_sample", ("C01",)),
+    ("digital_rf_write_rf_data_index", ("C06", "C01")),
+    ("nowrap.digital_rf_write_rf_data_index", ("C06",)),
+    ("bounds.digital_rf_write_rf_data_index", ("C06",)),
+    ("L-index-post", ("C01", "C06", "C19")),
+    ("step.reject", ("C05",)),
+    ("step.newfile_iff_name_changes", ("C04",)),
+    ("step.names_recorded", ("C04", "C19")),
+    ("step.create_path", ("C04", "C02")),
+    ("step.stays_in_window", ("C04", "C06")),
+    ("step.hyperslab", ("C01",)),
+    ("step.data_", ("C01",)),
+    ("step.returns_samples_written", ("C01", "C19")),
+    ("step.cursor", ("C19", "C05", "C01")),
+    ("step.dataset_index_advanced", ("C06", "C01")),
+    ("step.newfile.", ("C06", "C07")),
+    ("step.extend", ("C06",)),
+    ("step.existing", ("C06", "C07")),
+    ("step.index.", ("C06", "C01")),
+    ("step.recinv.", ("C06", "C01")),
+    ("pre.", ("C01", "C04", "C06")),
+    ("assert.digital_rf_write_samples_to_file", ("C06",)),
+    ("bounds.digital_rf_write_samples_to_file", ("C06",)),
+    ("blocks.reject", ("C05",)),
+    ("blocks.success", ("C19", "C05", "C01")),
+    ("blocks.return_codes", ("C05",)),
+    ("blocks.step_args", ("C01",)),
+    ("digital_rf_write_blocks_hdf5.loop", ("C05", "C19", "C01")),
+]
+
+
+def owned(label, pid):
+    for pref, pids in OWNERS:
+        if label.startswith(pref):
+            return pid in pids
+    return False
+
+
+def lmax(tier):
+    return 4 if tier == "thorough" else 3
+
+
+def add_step_obligations(ck, tu, X, want, units=("index", "step", "blocks")):
+    pid = want[0]
+    tier = ck.tier
+    LM = lmax(tier)
+    sink = []
+
+    def struct(label, ok, detail="", meta=None):
+        if owned(label, pid):
+            ck.struct(label, ok, detail, meta)
+
+    def take(obls):
+        for o in obls:
+            if owned(o.label, pid):
+                sink.append(o)
+
+    if "index" in units:
+        for L in range(1, LM + 1):
+            it = cfront.CInterp(tu, externals=X)
+            c_index.verify_index_success(it, L)
+            c_index.verify_index_reject(it, L)
+            c_index.verify_global_sample(it, L)
+            for o in it.obls:
+                o.bounded = "index_len = %d of <= %d (all values symbolic)" % (L, LM)
+            take(it.obls)
+            hy, goals = c_step.lemma_index_post(L)
+            for lab, g in goals:
+                o = Obl("L-index-post.%s" % lab, "spec", 0, hy, g, kind="lemma", meta={"L": L})
+                o.bounded = "index_len = %d of <= %d" % (L, LM)
+                take([o])
+            if pid in ("C06", "C01"):
+                ck.cover("L-index-post.hyps_satisfiable.L%d" % L, hy)
+        for R in range(1, (3 if tier == "thorough" else 2) + 1):
+            for ex in (False, True):
+                it = cfront.CInterp(tu, externals=X)
+                c_index.verify_write_index(it, R, ex)
+                for o in it.obls:
+                    o.bounded = "block_index_len = %d" % R
+                take(it.obls)
+        for f in (c_index.INDEX_FN, "digital_rf_get_global_sample", "digital_rf_write_rf_data_index"):
+            ck.add_function(tu.func_info(f))
+        ck.extra.setdefault("bounded_functions", []).append(
+            "digital_rf_create_rf_data_index / digital_rf_get_global_sample: loops unrolled for index_len <= %d with every value symbolic "
+            "(bounded stand-in; callers are verified against the contract for all index_len)" % LM)
+    if "step" in units:
+        for sc in ("fresh", "open"):
+            it = cfront.CInterp(tu, externals=X, config={"inline": c_step.INLINE, "specs": {}, "prune_full": False})
+            ctx = c_step.run_step(it, sc)
+            n0 = len(it.obls)
+            c_step.analyse_step(it, ctx, struct)
+            for o in it.obls:
+                o.meta["scenario"] = sc
+            take(it.obls)
+        for f in (c_step.STEP_FN,) + c_step.INLINE:
+            ck.add_function(tu.func_info(f))
+    if "blocks" in units:
+        it = cfront.CInterp(tu, externals=X, config={"prune_full": False})
+        ctx = c_blocks.run_blocks(it)
+        c_blocks.analyse_blocks(it, ctx, struct)
+        take(it.obls)
+        ck.add_function(tu.func_info(c_blocks.BLOCKS_FN))
+    ck.add(sink)
+    ck.trust({k: v for k, v in cext.TRUSTED.items()})
+    ck.assumptions += [
+        "ghost HDF5 model: H5Dcreate2/H5Dset_extent/H5Sselect_hyperslab/H5Dwrite behave as documented (dataset extent, hyperslab placement); HDF5 itself is trusted",
+        "property domain: 1<=n<2^32, 1<=d<=1e9, n*d<2^64, cadences < 2^32 with the cadence rule, sample times before year 9999, fewer than 2^40 samples and 2^30 blocks per call, element size <= 16 bytes, < 2^16 subchannels",
+        "calendar breakdown (gmtime) is injective on seconds; decimal file-name rendering is injective",
+        "the writer record invariant RecInv (DESIGN §3 FileInv summary) holds when a write call starts: it is established by the first step of a fresh writer and re-established by every successful step (proved here); states after an I/O failure or a refused file are excluded (C10/C11)",
+    ]
+    return sink
